@@ -626,6 +626,11 @@ def admission_jobs(r, n: int, prefix: str) -> List[tuple]:
             # characters that mean something to str.format / % / regular expressions
             ns = r.choice(['{Aces}', 'A{{ces', '%s', '{0}', 'a}b{', '(x', '[ab', 'a|b', '\\d+', '$^', '*', '?+'])
             ew = r.choice(['{}', '%d %s', 'E}', '.*', 'x)', 'a\\b', '^$']) + ew
+        if q % 7 == 2:
+            # team names that contain words of the connection line itself
+            ns = r.choice(['Good as Gold', 'x as North using protocol version 18', 'as', ' as ', 'using protocol',
+                           'Connecting', 'a as b as c', 'version 17'])
+            ew = r.choice(['as West', 'East as', 'seated', 'protocol version 18', 'W as E']) + ew
         if q % 7 == 3:
             ns = ''                    # the empty string is a team name too
         if q % 7 == 5:
